@@ -30,7 +30,7 @@ fn main() {
 				.unwrap_or(Tier::Quick);
 			let seed: u64 =
 				std::env::var("VERIF_SEED").ok().and_then(|s| s.parse().ok()).unwrap_or(1);
-			match plans::plan_for(&prop, tier, seed) {
+			match plans::plan_for(&prop, tier, seed, &verif_dir) {
 				Some(plan) => run_check(&plan, &lookup, &verif_dir),
 				None => {
 					println!("HARNESS-ERROR no check registered for property {:?}", prop);
@@ -39,7 +39,24 @@ fn main() {
 			}
 		},
 		Some("replay") => match args.get(2) {
-			Some(p) => replay_main(p, &lookup),
+			Some(p) => {
+				// replay files of simulations that live in another workspace are handed over
+				let sim = std::fs::read_to_string(p)
+					.ok()
+					.and_then(|s| serde_json::from_str::<serde_json::Value>(&s).ok())
+					.and_then(|v| v["replay"]["sim"].as_str().map(|s| s.to_string()))
+					.unwrap_or_default();
+				match plans::external_exe(&sim, &verif_dir) {
+					Some(exe) => std::process::Command::new(exe)
+						.arg("replay")
+						.arg(p)
+						.status()
+						.ok()
+						.and_then(|st| st.code())
+						.unwrap_or(2),
+					None => replay_main(p, &lookup),
+				}
+			},
 			None => 2,
 		},
 		Some("worker") => {
